@@ -65,3 +65,9 @@ Definition py_net_of_addr (a : Z * Z) : net := addr_net (fst a) (snd a).
 (* x.previous() / x.next() for an IPNetwork object (step 1): not translated (they go through a string), the hand models *)
 Definition py_net_previous (n : net) : outcome net := net_previous n.
 Definition py_net_next (n : net) : outcome net := net_next n.
+(* (f x for x in l) consumed at once, where f may raise: the results in order; the first exception wins *)
+Fixpoint py_map_o {A B} (f : A -> outcome B) (l : list A) : outcome (list B) :=
+  match l with
+  | [] => Ok []
+  | x :: r => do y <- f x; do ys <- py_map_o f r; Ok (y :: ys)
+  end.
